@@ -519,10 +519,14 @@ def _moderate(t, x, th):
         return False
 
 
-def search(ctx):
+def _numeric_chunk(arg):
+    """(seed, chunk number, [(task id, original labels, rewritten labels)]) -> [(task id, 'ok'|'diff'|'undecided', detail)]
+    Independent evaluator (liboracle, mpmath at 50 digits) at 12 generic points (60 more if fewer than 2 are usable)."""
+    seed, cno, tasks = arg
     sys.path.insert(0, os.path.join(esrv.VERIF, "harness", "lib"))
     import liboracle as lo
     lo.mp.mp.dps = 50
+    rng = esrv.rng(seed, "C11/points/%d" % cno)
 
     def guarded(L):
         t, _ = lo.parse_tree(L, 0)
@@ -535,12 +539,38 @@ def search(ctx):
             except MemoryError:
                 raise lo.Undefined("memory")
         return f
+    out = []
+    for tid, L0, L in tasks:
+        npar = max([int(l[1:]) + 1 for l in L0 + L if PAR.match(l)] + [1])
+        fa, fb = guarded(L0), guarded(L)
+        res, det = lo.same_function(fa, fb, lo.gen_points(rng, npar, 12))
+        if res == "undecided":
+            res, det = lo.same_function(fa, fb, lo.gen_points(rng, npar, 60))
+        out.append((tid, res, det))
+    return out
+
+
+def search(ctx):
+    sys.path.insert(0, os.path.join(esrv.VERIF, "harness", "lib"))
+    import liboracle as lo
     rep = ctx.report
     records = getattr(ctx, "c11_records", None)
     if records is None:
         jobs, rb = jobs_for(ctx)
         records, counts, errs = run_impl(ctx, jobs, full=True)
-    rng = esrv.rng(ctx.seed, "C11/points")
+    # numeric comparison original vs EVERY rewritten tree, spread over processes
+    tasks = []
+    for ri, r in enumerate(records):
+        if isinstance(r.get("full"), list):
+            for li, L in enumerate(r["full"][1:]):
+                if lo.wellformed(L):
+                    tasks.append(((ri, li), r["labels"], L))
+    chunks = [(ctx.seed, i, ch) for i, ch in enumerate(shard(tasks, 400))]
+    numeric = {}
+    with concurrent.futures.ProcessPoolExecutor(max_workers=10) as ex:
+        for part in ex.map(_numeric_chunk, chunks):
+            for tid, res, det in part:
+                numeric[tuple(tid)] = (res, det)
     stats = collections.Counter()
     seen_keys = set()
     phase2 = []
@@ -552,7 +582,7 @@ def search(ctx):
         seen_keys.add((key, what[:60]))
         rep.fail("failing-input", what, key, input={"basis": r["basis"], "labels": r["labels"]}, **kw)
 
-    for r in records:
+    for ri, r in enumerate(records):
         b, L0 = r["basis"], r["labels"]
         full, p1 = r.get("full"), r["p1"]
         stats["trees"] += 1
@@ -573,8 +603,7 @@ def search(ctx):
         if full[0] != L0:
             fail("C11:first-is-original", "the first returned tree is not the original", r, observed=full[0], expected=L0)
         p1set = set(tuple(q) for q in p1) if isinstance(p1, list) else set()
-        npar = max([int(l[1:]) + 1 for l in L0 if PAR.match(l)] + [1])
-        for L in full[1:]:
+        for li, L in enumerate(full[1:]):
             stats["rewritten"] += 1
             phase = 1 if tuple(L) in p1set else 2
             stats["phase%d" % phase] += 1
@@ -589,11 +618,7 @@ def search(ctx):
                      "nor an integer" % (phase, bad), r, observed=L, expected="labels from the basis, x, the original's parameters, integers")
             if phase == 1 and params_of(L) != params_of(L0):
                 fail("C11:parameters", "phase 1 changed the set of parameters", r, observed=L, expected=sorted(params_of(L0)))
-            pts = lo.gen_points(rng, npar, 12)
-            fa, fb = guarded(L0), guarded(L)
-            res, det = lo.same_function(fa, fb, pts)
-            if res == "undecided":
-                res, det = lo.same_function(fa, fb, lo.gen_points(rng, npar, 60))
+            res, det = numeric[(ri, li)]
             if res == "diff":
                 fail("C11:different-function:phase%d" % phase, "phase %d produced a tree that evaluates differently from its original" % phase,
                      r, observed={"rewritten": L, "point": det}, expected="equal values wherever both are defined")
